@@ -189,6 +189,16 @@ pub fn alphabet(inst: usize, allowed: &[u16], ids: &[u16], layouts: usize, extra
         add(format!("OT(IPFIX, template id {} = a template-set id)", tid), ipm(vec![ip_ot(tid)]), None, 10, true);
     }
     if extras {
+        // redefinitions with MORE and with FEWER fields than the two-field layouts (a definition is replaced, never merged)
+        let id = ids[0];
+        let wide = vec![fs(8, 4), fs(7, 2), fs(11, 2), fs(4, 1), fs(5, 1), fs(1, 2)];
+        let narrow = vec![fs(1, 4)];
+        add(format!("T(V9,{},six fields)", id), v9p(vec![V9Set::Tpl(vec![V9Tpl { id, fields: wide.clone() }], 0)]), None, 9, true);
+        add(format!("T(V9,{},one field)", id), v9p(vec![V9Set::Tpl(vec![V9Tpl { id, fields: narrow.clone() }], 0)]), None, 9, true);
+        add(format!("T(IPFIX,{},six fields)", id), ipm(vec![IpfixSet::Tpl(vec![IpfixTpl { id, fields: wide }], 0)]), None, 10, true);
+        add(format!("T(IPFIX,{},one field)", id), ipm(vec![IpfixSet::Tpl(vec![IpfixTpl { id, fields: narrow }], 0)]), None, 10, true);
+    }
+    if extras {
         // V9 options templates with scope length 0 or option length 0: well formed, the latest definition of the id
         let id = ids[0];
         add(format!("OT-without-scope(V9,{})", id), v9p(vec![V9Set::OptTpl(vec![V9OptTpl { id, scope: vec![], opts: vec![fs(34, 4), fs(36, 4)] }], 0)]), None, 9, true);
